@@ -1792,7 +1792,12 @@ impl<T: PPGEvaluatorStrategy> PPGEvaluator<T> {
                                     "No history for {}, but found {} to use instead",
                                     upstream_id, x
                                 );
-                                history.get(&x).map(Cow::from)
+                                // what we want is what the downstream consumed last time,
+                                // not what the renamed job produced last - it might have
+                                // been rerun (or have failed) while the downstream was not.
+                                history
+                                    .get(&format!("{}!!!{}", x, downstream_id))
+                                    .map(Cow::from)
                             }
                             None => None,
                         }
